@@ -13,7 +13,7 @@ func init() {
 // vpBuiltin fetches a builtin by name through the runner (so a swapped
 // registration is caught).
 func vpBuiltin(name string) interface{} {
-	v, err := NewRunner().resolve(context.Background(), vpId(name))
+	v, err := vpExact(NewRunner(), context.Background(), vpId(name))
 	if err != nil {
 		return nil
 	}
